@@ -2,6 +2,7 @@ package utils
 
 import (
 	"fmt"
+	"net"
 	"net/http"
 	"strings"
 )
@@ -43,11 +44,12 @@ func NewExtractor(variable string) (SourceExtractor, error) {
 }
 
 func extractClientIP(req *http.Request) (string, int64, error) {
-	vals := strings.SplitN(req.RemoteAddr, ":", 2)
-	if vals[0] == "" {
+	// RemoteAddr is "IP:port"; for IPv6 the IP is bracketed and itself contains colons.
+	host, _, err := net.SplitHostPort(req.RemoteAddr)
+	if err != nil || host == "" {
 		return "", 0, fmt.Errorf("failed to parse client IP: %v", req.RemoteAddr)
 	}
-	return vals[0], 1, nil
+	return host, 1, nil
 }
 
 func extractHost(req *http.Request) (string, int64, error) {
